@@ -12,7 +12,8 @@ def Call.weight (k : Call) : Nat :=
 
 def Conn.weight (cn : Conn) : Nat :=
   2 * b2n cn.pending + b2n cn.watcher + b2n (!cn.hs) + b2n (!cn.sawSig) + b2n (!cn.ageFired)
-  + b2n (!cn.final) + b2n (!cn.closed) + (cn.calls.map Call.weight).sum
+  + b2n (!cn.final) + b2n (!cn.closed) + b2n (!cn.inSet) + b2n (!cn.tlsOk)
+  + (cn.calls.map Call.weight).sum
 
 /-- Upper bound on the number of internal steps the server can still take without new input. -/
 def weight (s : State) : Nat :=
@@ -77,7 +78,9 @@ theorem internal_step_decreases {s s' : State} {l : Label} (hi : l.internal = tr
     simp only [step] at h
     split at h
     · refine weight_updConn h ?_
-      intro cn hp
+      intro cn hgd
+      simp only [Bool.and_eq_true] at hgd
+      have hp := hgd.1
       simp only [Conn.weight, hp, b2n]
       cases s.cfgGraceful <;> cases cn.watcher <;> simp <;> omega
     · cases h
@@ -119,6 +122,24 @@ theorem internal_step_decreases {s s' : State} {l : Label} (hi : l.internal = tr
       simp only [Bool.false_eq_true, if_false]
       omega
     · cases h
+  case tlsTake c =>
+    simp only [step] at h
+    split at h
+    · refine weight_updConn h ?_
+      intro cn hgd
+      simp only [Bool.and_eq_true, Bool.not_eq_true'] at hgd
+      simp [Conn.weight, hgd.2, b2n]
+    · cases h
+  case tlsDone c =>
+    refine weight_updConn h ?_
+    intro cn hgd
+    simp only [Bool.and_eq_true, Bool.not_eq_true'] at hgd
+    simp [Conn.weight, hgd.1.1.1.2, b2n]
+  case tlsFail c =>
+    refine weight_updConn h ?_
+    intro cn hgd
+    simp only [Bool.and_eq_true, Bool.not_eq_true'] at hgd
+    simp [Conn.weight, hgd.1.1.2, b2n]
   case connSig c =>
     refine weight_updConn h ?_
     intro cn hgd
@@ -195,15 +216,20 @@ theorem step_mono {s s' : State} {l : Label} (h : step s l = some s') :
     (s.sigReady = true → s'.sigReady = true) ∧ (s.ended = true → s'.ended = true)
     ∧ (s.loopRunning = false → s'.loopRunning = false) ∧ (s.freeRun = true → s'.freeRun = true) := by
   cases l <;> simp only [step] at h
-  case offer | freeRun => cases h; simp
-  case sigFire | endIncoming | acceptErr | ageTick | loopSig | loopErr | loopEnd | afterLoop
+  case offer | offerTls | freeRun => cases h; simp
+  case sigFire | endIncoming | acceptErr | loopSig | loopErr | loopEnd | afterLoop
       | resolve =>
     split at h
     · cases h; simp
     · cases h
-  case issue | peerDrop | connSig | connAge | connBreak | connDropWatcher | hsDone | final =>
+  case ageTick | tlsTake =>
+    split at h
+    · obtain ⟨_, _, _, rfl⟩ := updConn_some h; simp
+    · cases h
+  case issue | peerDrop | connSig | connAge | connBreak | connDropWatcher | hsDone | final
+      | clientHello | tlsDone | tlsFail =>
     obtain ⟨_, _, _, rfl⟩ := updConn_some h; simp
-  case permit | cancel | callStart | produce | deliver =>
+  case permit | reqSend | cancel | callStart | produce | deliver =>
     obtain ⟨_, _, _, _, _, rfl⟩ := updCall_some h; simp
   case loopAccept =>
     split at h
